@@ -51,6 +51,28 @@ pub fn final_request(srv: &Value, version: u32, client_pub: &[u8], key: &[u8], s
             if let Some(v) = f.get("fill").and_then(|x| x.as_u64()) { for p in 4..12 { t[p] = v as u8; } }
             wrap_req(&t)
         }
+        // a server that never knew the password forges key + 1 from the client's own token, betting that the client fell
+        // back to session security WITHOUT extended session security (empty signing key, one sealing key for both
+        // directions) because the CHALLENGE did not select it: key stream = client ciphertext xor the public key (known),
+        // checksum key stream = client's encrypted checksum xor HMAC_MD5("", seq || public key)
+        "forge_noess" => {
+            let t = client_token;
+            if t.len() < 16 + client_pub.len() { return wrap_req(&[]); }
+            let c = &t[16..];
+            let ks0: Vec<u8> = c.iter().zip(client_pub.iter()).map(|(a, b)| a ^ b).collect();
+            let mut seqp = vec![0u8, 0, 0, 0]; seqp.extend_from_slice(client_pub);
+            let mac = crate::nlapeer::hmac_md5(&[], &seqp);
+            let ks1: Vec<u8> = t[4..12].iter().zip(mac[..8].iter()).map(|(a, b)| a ^ b).collect();
+            let p2 = le_increment(client_pub, 1);
+            let c2: Vec<u8> = p2.iter().zip(ks0.iter()).map(|(a, b)| a ^ b).collect();
+            let mut seqp2 = vec![0u8, 0, 0, 0]; seqp2.extend_from_slice(&p2);
+            let mac2 = crate::nlapeer::hmac_md5(&[], &seqp2);
+            let mut tok = vec![1u8, 0, 0, 0];
+            tok.extend(mac2[..8].iter().zip(ks1.iter()).map(|(a, b)| a ^ b));
+            tok.extend_from_slice(&[0, 0, 0, 0]);
+            tok.extend(c2);
+            wrap_req(&tok)
+        }
         "bad_seq" => { let mut t = s2c.wrap(&honest_plain); t[12] ^= 1; wrap_req(&t) }
         "bad_sig_version" => { let mut t = s2c.wrap(&honest_plain); t[0] = 2; wrap_req(&t) }
         "truncated" => { let t = s2c.wrap(&honest_plain); let n = (gi(srv, "n", 0) as usize).min(t.len()); wrap_req(&t[..n]) }
